@@ -24,7 +24,7 @@ CLAIMED = {
              "started application NO history of control datagrams, data datagrams and ticks crashes anything - the model's handle_rx includes the artificial reply delay (time.sleep's domain: a delay beyond 2^63-1 ns is the crash "
              "outcome; every FAKE_TRXC_DELAY beyond 9223372036854 ms is refused, every accepted one can be slept, the invariant carries the bound) - (so later valid input is served by the other properties' theorems); capture reader total on arbitrary file content; "
              "trxcon: trx_data_rx_cb in bounds, every burst indication it hands up has a timeslot 0..7, a frame inside the hyperframe and exactly 148 or 444 soft bits (never more than the scheduler's array holds), and trx_ctrl_read_cb free of NULL dereference / out-of-extent / uninitialised reads for all datagrams and pending commands. Malformed streams injected into real sessions vs the model, "
-             "valid non-ASCII text, damaged captures, random octets into the parser, hostile datagrams into the real trx_if.c under ASan/UBSan (+MSan in thorough when clang is present, stale-stack differential otherwise).",
+             "valid non-ASCII text, damaged captures, random octets into the parser, hostile datagrams into the real trx_if.c under ASan/UBSan (+MSan in thorough when clang is present, stale-stack differential otherwise); a control datagram that is not text (invalid UTF-8) is never executed and answered as a success.",
         note="partial, said plainly: Coq proves the MODEL total and in-bounds; that the real interpreter / compiled code cannot fail in a way the model has no constructor for (memory exhaustion, CPython int() corners outside the "
              "modelled ASCII grammar - non-ASCII control text is exercised by the implementation-only stream -, libc sscanf internals) is only sampled by the sanitizer runs.",
         technique="Coq proof (invariant over all histories; totality) + extracted-model correspondence with malformed streams + sanitizer campaigns on the real trx_if.c", ref="7-C14"),
@@ -41,7 +41,7 @@ CLAIMED = {
              "the application tick does exactly this to every queue; and over ALL thread schedules (any length) of one arrival / POWEROFF / POWERON racing one tick at the granularity of lock sections and single "
              "reads/writes of running / fh: conservation, on-time (modular frame comparison across the hyperframe wrap), no crash on any schedule. Sessions on the real Application (with child transceivers and power commands through the parent) "
              "vs the model - every session tick goes through the real CLCKGen.send_clck_ind(), consecutive frames use the generator's own increment (also across 2715647 -> 0); schedules driven on two real threads over real FakeTRX "
-             "objects (thorough: every distinct interleaving over the first 14 scheduling decisions, each once) vs the extracted race model; the shared clock generator must run exactly while a clock-owning transceiver is powered on (judged from the command history).",
+             "objects (thorough: every distinct interleaving over the first 14 scheduling decisions, each once) vs the extracted race model; the shared clock generator must run exactly while a clock-owning transceiver is powered on (judged from the command history); fan-out sessions (one sender, several recipients with their own mute / drop / version): every tuned running recipient gets its own copy in the burst's frame.",
         note="partial: atomicity granularity (lock sections; one attribute access under the GIL) is assumed, preemption inside a bytecode or inside socket.sendto is not modelled. Two defects found by this check were repaired in /repo "
              "(ab4b39d: double read of self.fh racing POWEROFF; 8ee3c86: numeric frame comparison across the hyperframe wrap).",
         technique="Coq proof (history invariants; one-step invariants over arbitrary schedules) + extracted models vs real objects (sessions; controlled schedules on real threads)", ref="7-C03"),
@@ -51,7 +51,7 @@ CLAIMED = {
              "SETTA, FAKE_*, unknown verbs -> 0 without effect) for decimal arguments; a refused command (negative status, any verb) changes nothing at all; no command crashes or leaves the reachable region; trxcon side (model of trx_if.c): every reply to a command trxcon emits is "
              "matched and decided by its status, trxcon's longest command (SETFH) fits the toolkit's receive size, and the SETFH command carries exactly the hopping list it was given (HSN, MAIO, 'rx tx' of every channel in order) or nothing "
              "is queued (a channel without frequency; more than 999 characters: 63 DCS channels). 15 theorems. Sessions vs model + independent reference table + end to end through the real trx_if.c + SETFH composer against a specification oracle "
-             "(sizes around the room limit in every band); raw datagrams include the degenerate 'CMD', 'CMD ' and non-CMD prefixes.",
+             "(sizes around the room limit in every band); raw datagrams include the degenerate 'CMD', 'CMD ' and non-CMD prefixes; the EFFECT of SETPOWER / SETTA / FAKE_* is judged on the bursts the peer receives afterwards (sessions and oracle shared with C10).",
         note="well-formed = ASCII decimal arguments (py_int models int() on ASCII tokens; other tokens: C14); control receive size probed through a fake socket; TRXC_BUF_SIZE as compiled; "
              "time.sleep of FAKE_TRXC_DELAY virtualised with the real call's domain (negative: ValueError, beyond 2^63-1 ns: OverflowError). Fixed in /repo: 526bb7b, 35bc7c1, 03c0ece.",
         technique="Coq proof (case analysis per verb, invariants) + Gen (probed sizes, compiled constants) + extracted-model correspondence + real trx_if.c harness", ref="7-C05"),
@@ -95,7 +95,7 @@ CLAIMED = {
         text="Theorems: a power event sets exactly the affected transceivers (self + children of a managing parent), power-off clears queue and hopping; after any event history running = last effective event; "
              "control datagrams change power only through POWEROFF / a POWERON that finds the transceiver idle and tuned or hopping; invariant over ALL control datagram histories: clock links = running clock owners, "
              "no duplicates, generator runs iff non-empty; port plan injective; sessions through the real Application constructor (random --trx wiring) vs the model + reference of the documented semantics, "
-             "port plan and clock-indication destinations observed on the created sockets.",
+             "port plan and clock-indication destinations observed on the created sockets; routing sessions (shared with C02) judge the power state by what every OTHER transceiver receives: a powered-off one gets nothing and hides nobody.",
         note="partial: the clock thread's loop is replaced by explicit ticks through the real send_clck_ind(); its body up to the first wait (the SCHED_RR request, against a sched_setscheduler stand-in with the kernel's rules: EINVAL "
              "outside 1..99, EPERM unprivileged) runs for real at every start(), a worker that dies there is a dead thread, and liveness afterwards follows the breaker event; configurations whose children own no clock (what Application builds). Generators: child indices incl. two-digit ones, "
              "peers on different hosts (-R / -r / --trx addresses) with the expected peer address of every link derived from the command line, base ports of either parity.",
@@ -103,7 +103,7 @@ CLAIMED = {
     "C15": dict(
         text="For every list of valid Tx/Rx messages: append writes tag + BE16 length + message records; a full read returns them in order, equal in every carried field; parse_msg(i) is the i-th / None; "
              "skip/count select exactly firstn count (skipn skip ms); for every cut offset k, reading the first k octets returns exactly the messages whose records end at or before k, without exception; "
-             "13 Coq theorems on a model built on the TRXD codec model (C01 round trips reused), tags/HDR_LENGTH regenerated, differential correspondence with the real DATADumpFile (BytesIO and on-disk).",
+             "13 Coq theorems on a model built on the TRXD codec model (C01 round trips reused), tags/HDR_LENGTH regenerated, differential correspondence with the real DATADumpFile (BytesIO and on-disk); appends and reads mixed on one object opened by path, with and without a flush by the caller. Fixed in /repo: 72dc55d (append after a read).",
         note="Non-Tx/Rx objects, non-integer skip/count and damage other than a clean cut are outside the theorems (damaged files: correspondence only). On a cut file with a surviving 3-octet header "
              "parse_all(skip = complete+1) returns [] instead of False (stated as c15_truncation_slice; not a violation of the statement).",
         technique="Coq proof over an executable model + Gen by reflection + extracted model vs real class (index, skip/count grid, truncation at every offset, damaged files)", ref="7-C15"),
@@ -125,8 +125,9 @@ CLAIMED = {
     "C07": dict(
         text="Theorems for all HSN 0..63, MAIO, N 1..64, FN of the hyperframe: firmware rfch_hop_seq_gen and HoppingParams.resolve both compute the 45.002 6.2.3 MAI (arithmetic reduction by lia + "
              "499 392-case vm_compute sweep lifted), table reads in bounds, both select MA[MAI]; RNTABLE of both implementations regenerated and proved equal to the hand-typed standard table; "
-             "complete reduced domain executed on the real rfch.c (and on Python in thorough).",
-        note="rfch.c is #included in the harness (static table and function reached through rfch_get_params); l1s.dedicated configured by the harness.",
+             "complete reduced domain executed on the real rfch.c (and on Python in thorough). Frequency redefinition (prim_freq.c l1s_freq_cmd, 8 further theorems, 12 in all): after the command at the starting time the channel of every frame is the one 45.002 "
+             "selects from the STAGED parameters (any list of 1..64 channels; non-hopping case; training sequence), staging alone leaves the active channel as it was; executed through the real prim_freq.c + sched_gsmtime.c + tdma_sched.c.",
+        note="rfch.c is #included in the harness (static table and function reached through rfch_get_params); l1s.dedicated configured by the harness; the L1CTL handler that fills the staged fields (l23_api.c) is modelled, not verified.",
         technique="Coq proof (lia reduction + lifted vm_compute sweep) + Gen tables (reflection / C dumper) + extracted-model correspondence", ref="7-C07"),
     "C08": dict(
         text="36 Coq theorems. tdma_sched.c (22), over all valid histories and all well-formed states: refinement of the bucket ring to a (frames-until-due, item) multiset, slot-level exactly-once-on-time, "
@@ -166,7 +167,7 @@ CLAIMED = {
              "(no crash for reachable parameters), mute suppresses everything without consuming the counter, suppressed = nothing on v0 / exactly one NOPE (no bits, RSSI -110, ToA 0, C/I -30, parses back) on v1, "
              "negative amounts / non-positive periods rejected without state change; whole sessions on the real Application compared with the extracted session model + independent reference of the drop pattern; "
              "fan-out sessions (several recipients with their own counters, mute flags and versions); one FAKE_DROP / RFMUTE command racing the tick that decides about a burst on two real threads under controlled schedules, "
-             "judged by a serialisability oracle.",
+             "judged by a serialisability oracle; bursts are also queued ahead of the clock with RFMUTE / FAKE_DROP arriving while they wait.",
         note="partial: sockets, select loop and the clock thread are replaced by in-memory sockets and explicit ticks; control arguments are decimal integers (other tokens: C14). The thread schedules are an implementation-level "
              "scenario (preemption where the code calls out to logging or takes a lock), not part of the Coq model. One defect found by it was repaired in /repo (c49a49d: counter decremented after the log call).",
         technique="Coq proof (induction over the burst stream) + Gen constants + extracted session-model correspondence on the real Application + controlled two-thread schedules with a serialisability oracle", ref="7-C18"),
